@@ -174,6 +174,16 @@ func validateResult(r runner.Result, o evalOpts) ([]finding, error) {
 	if err != nil {
 		return nil, err
 	}
+	// cgo packages: the compiled files include generated ones (in the build cache);
+	// they count as files of the package for the existence of positions
+	if gen, err := readPkg(r.Package.CompiledGoFiles); err == nil {
+		for _, n := range gen.order {
+			if _, ok := ps.files[n]; !ok {
+				ps.add(n, gen.files[n])
+				ps.generated = append(ps.generated, n)
+			}
+		}
+	}
 	var out []finding
 	add := func(check, kind, msg string) {
 		out = append(out, finding{check: check, kind: kind, sig: knownSig(check, kind), msg: fmt.Sprintf("%s %s: %s", o.label, r.Package.PkgPath, msg), files: baseFiles(ps)})
@@ -202,6 +212,9 @@ func validateResult(r runner.Result, o evalOpts) ([]finding, error) {
 			continue
 		}
 		stat("diagnostics_by_check", d.Category, 1)
+		if ps.isGenerated(d.Position.Filename) {
+			ev.Count("position_in_cgo_generated_file", 1)
+		}
 		for _, v := range checkPositions(ps, d) {
 			add(d.Category, v.kind, fmt.Sprintf("%s %q: %s", d.Category, d.Message, v.msg))
 		}
